@@ -322,3 +322,10 @@ func verifSysClose(fd int) error {
 	verifK.sysCloses++
 	return nil
 }
+
+func verifSysRead(fd int, p []byte) (int, error) {
+	if verifChoose("sysread", 2) == 0 {
+		return 0, unix.EIO
+	}
+	return 0, nil
+}
